@@ -269,7 +269,7 @@ def lifecycle_check(prop, tier):
         # one source line has one `times` expression: installations of the same line within a lifetime agree on n
         hm = [h for h in hm if len(set(x["n"] for x in h if x["act"] == "Install" and x["n"] >= 0)) == 1]
         rndm = vlib.rnd("c7mixed")
-        nmixed = 400 if tier == "quick" else 6000
+        nmixed = 400 if tier == "quick" else 2000
         for _ in range(nmixed):
             chain = []
             for h in rndm.sample(hm, rndm.choice([2, 2, 3])):
